@@ -28,9 +28,17 @@ CONSTANTS SecpPeers,   \* peers with a secp256k1 (operator) key; "sx" / "sy" sta
           BatchLen
 
 Peers == SecpPeers \cup OtherPeers
-\* what the sender field can hold: a peer's well-formed identity, or bytes that are no
-\* protobuf ("garbage"), a protobuf whose key bytes are no key ("badkey"), or nothing ("empty")
-Inner == Peers \cup {"garbage", "badkey", "empty"}
+\* the mirror identity of an operator: the well-formed secp256k1 key (x, -y) for the
+\* operator's (x, y): same X, another point, another peer id (the compressed forms differ
+\* in the 02/03 prefix only). Nobody publishes under it here; it only occurs as inner identity.
+Mirror(p) == <<"mirror", p>>
+Mirrors == { Mirror(p) : p \in SecpPeers }
+WellFormedIds == { <<"peer", p>> : p \in Peers } \cup Mirrors
+\* what the sender field can hold: a well-formed identity (a peer's, or a mirror), or bytes that
+\* are no protobuf ("garbage"), a protobuf whose key bytes are no key ("badkey"), or nothing ("empty")
+Malformed == { <<"malformed", k>> : k \in {"garbage", "badkey", "empty"} }
+Inner == WellFormedIds \cup Malformed
+Id(p) == <<"peer", p>>
 
 Envelopes == [outer : Peers, container : {"ok", "garbage"}, type : {"registered", "unknown"},
               payload : {"ok", "undecodable"}, inner : Inner, seq : {1, 2}]
@@ -47,9 +55,9 @@ Verdict(e) ==
     IF e.container = "garbage" THEN "container"
     ELSE IF e.type = "unknown" THEN "type"
     ELSE IF e.payload = "undecodable" THEN "payload"
-    ELSE IF e.inner \notin Peers THEN "identity"
-    ELSE IF e.inner # e.outer THEN "mismatch"
-    ELSE IF e.inner \notin SecpPeers THEN "keytype"
+    ELSE IF e.inner \notin WellFormedIds THEN "identity"
+    ELSE IF e.inner # Id(e.outer) THEN "mismatch"
+    ELSE IF e.outer \notin SecpPeers THEN "keytype"
     ELSE "delivered"
 
 Init ==
@@ -74,7 +82,7 @@ Spec == Init /\ [][Next]_vars
 Attributed ==
     \A k \in DOMAIN delivered :
         LET d == delivered[k] e == batch[d.at] IN
-        /\ d.sender = e.outer /\ d.key = e.outer
+        /\ d.sender = Id(e.outer) /\ d.key = Id(e.outer)
         /\ e.outer \in SecpPeers
         /\ e.type = "registered" /\ e.payload = "ok" /\ e.container = "ok"
         /\ d.seq = e.seq
@@ -83,7 +91,7 @@ Attributed ==
 \* every well-formed, correctly attributed envelope of the batch is delivered
 \* exactly once, in order
 WellFormed(e) == /\ e.container = "ok" /\ e.type = "registered" /\ e.payload = "ok"
-                 /\ e.inner = e.outer /\ e.outer \in SecpPeers
+                 /\ e.inner = Id(e.outer) /\ e.outer \in SecpPeers
 Independent ==
     i > Len(batch) =>
         /\ \A j \in DOMAIN batch :
